@@ -713,7 +713,8 @@ def evaluate_cases_with_tlc(case_texts: list[str], tables: dict[str, Any], extra
     with open(os.path.join(d, mod + ".cfg"), "w") as f:
         f.write(TRACE_CFG)
     r = tlc(mod, mod + ".cfg", cwd=d, workers=1, coverage=False, timeout=900, heap="2g",
-            env_extra={"JAVA_TOOL_OPTIONS": "-Xss512m"})  # the fold over a long trace is a deep recursion
+            # the fold over a long trace is a deep recursion; one worker needs no crowd of GC / JIT threads
+            env_extra={"JAVA_TOOL_OPTIONS": "-Xss512m -XX:ParallelGCThreads=2 -XX:CICompilerCount=2"})
     if not r.ok:
         keep = os.path.join(VERIF, "replays", PID)
         raise MachineryError("TLC trace evaluation (%s) failed: %s %s\n%s" % (tag, r.violated, r.error, r.out[-1500:]))
@@ -808,7 +809,7 @@ def make_variants(case: Case, base_out: dict[str, list[Any]], tables: dict[str, 
     for t in items:
         by_line.setdefault(t[1], []).append(t)
     lines = sorted(by_line)
-    cap = 3 if tier == "quick" else 6
+    cap = 3 if tier == "quick" else 5
     chosen = lines if len(lines) <= cap else sorted(rnd.sample(lines, cap))
     subof = tables["subof"]
     right_of: dict[int, list[str]] = {}
@@ -828,7 +829,7 @@ def make_variants(case: Case, base_out: dict[str, list[Any]], tables: dict[str, 
                 vs.append(Variant("ignore", placements=[(ln, [subof[codes[0]]])]))
         wrong = [w for w in WRONG_CODES if w not in codes and w not in [subof.get(c) for c in codes]]
         vs.append(Variant("ignore", placements=[(ln, [wrong[0]])]))
-        if tier != "quick" or rnd.random() < 0.3:
+        if rnd.random() < (0.3 if tier == "quick" else 0.5):
             vs.append(Variant("ignore", placements=[(ln, [wrong[1], "unused-ignore"])]))
     if len(chosen) > 1:
         vs.append(Variant("ignores", placements=[(ln, []) for ln in chosen]))
@@ -1618,7 +1619,7 @@ def main(argv: list[str]) -> int:
                 "cases with known findings (quick), plus %d generated programs always; per case: bare / right-code / all-codes / parent-code / "
                 "wrong-code / wrong-code+unused-ignore ignores on up to %d diagnostic lines, multi-line subsets, --disable-error-code for "
                 "present codes (and parents), disable+enable, --enable-error-code for default-off codes; non-trivial = a case in which at "
-                "least one variant changed the output" % (len(gen_cases), 3 if tier == "quick" else 6),
+                "least one variant changed the output" % (len(gen_cases), 3 if tier == "quick" else 5),
         "replayed_item_kinds": kinds_seen,
         "samples": samples + ([{"corpus": corpus_sample}] if corpus_sample else []),
         "tlc": cov,
